@@ -44,10 +44,16 @@ def kind(x):
         if x[0] == "lin":
             return "int"
         name = x[1]
+        if name in ("cat", "rep", "slice"):
+            for part in x[2:]:
+                k = kind(part)
+                if k in ("bytes", "str"):
+                    return k
+            return "bytes" if name != "slice" else "any"
         if name in ("mod", "floordiv", "shl", "shr", "and", "or", "xor", "inv", "pow", "mul", "len", "get_as_int",
-                    "int", "abs", "ord", "sum", "count", "index"):
+                    "int", "abs", "ord", "sum", "count", "index", "bit", "select_int"):
             return "int"
-        if name in ("cat", "pack", "rep", "joinmap", "bytesof", "encode", "ljustb", "slice_b"):
+        if name in ("cat", "pack", "rep", "joinmap", "bytesof", "encode", "ljustb", "rjustb", "slice_b", "sized"):
             return "bytes"
         if name in ("strcat", "format", "lower", "upper", "get_as_str", "str", "chr", "repr"):
             return "str"
@@ -181,6 +187,8 @@ def shl(a, b):
 def shr(a, b):
     if not is_sym(a) and not is_sym(b):
         return a >> b
+    if not is_sym(b) and b == 0:
+        return a
     return op("shr", a, b)
 
 
@@ -192,6 +200,16 @@ def _comm(name, a, b, fold):
 
 
 def band(a, b):
+    # (x >> i) & 1  ==  bit i of x
+    for x, y in ((a, b), (b, a)):
+        if not is_sym(y) and y == 1 and is_sym(x):
+            if x[0] == "op" and x[1] == "shr" and not is_sym(x[3]):
+                return op("bit", x[2], x[3])
+            if x[0] == "op" and x[1] == "mod" and x[3] == 2:
+                return op("bit", x[2], 0)
+            if not (x[0] == "op" and x[1] == "bit"):
+                return op("bit", x, 0)
+            return x
     return _comm("and", a, b, lambda x, y: x & y)
 
 
